@@ -50,7 +50,7 @@ pub fn any_message(cx: &Cx) -> Message<'static> {
         3 => {
             let n = gens::chunk_len(cx);
             let off = *cx.pick(&[0u16, 16, 32, 0xFFF0, 0xFFFF, 1]);
-            Message::SendData(Offset(off), gens::data(cx.bytes(n)))
+            Message::SendData(Offset(off), gens::data(gens::payload(cx, n)))
         }
         4 => Message::DataChunksSent(ChunkCount(*cx.pick(&[0u16, 1, 6, 255, 256, 0xFFFF]))),
         5 => Message::PixelsComplete(a),
@@ -153,7 +153,7 @@ fn reply_line(cx: &Cx) -> (Vec<u8>, &'static str, Known) {
         }
         return (l, "partial-line", None);
     }
-    match cx.draw(10) {
+    match cx.draw(11) {
         0..=3 => {
             let m = match cx.draw(3) {
                 0 => Message::ReportState(gens::address(cx), gens::ALL_STATES[cx.draw(13) as usize]),
@@ -196,7 +196,24 @@ fn reply_line(cx: &Cx) -> (Vec<u8>, &'static str, Known) {
             (l, "wrong-length", Some(None))
         }
         8 => (vec![], "empty-timeout", None),
+        9 => {
+            // a reply in which one hex digit was hit into a character that is no hex digit at all
+            let mut l = Frame::from(any_reply_message(cx)).to_bytes_with_newline();
+            let p = 1 + cx.draw(l.len() as u64 - 3) as usize;
+            const NOT_HEX: &[u8] = b"+-GHIJKLMNOPQRSTUVWXYZghijklmnopqrstuvwxyz /@`.;_#\x00\x7f\xb1";
+            l[p] = *cx.pick(NOT_HEX);
+            cx.probe("reply_with_a_non_hex_character");
+            (l, "non-hex-character", Some(None))
+        }
         _ => (vec![], "empty-eof", None),
+    }
+}
+
+fn any_reply_message(cx: &Cx) -> Message<'static> {
+    match cx.draw(3) {
+        0 => Message::ReportState(gens::address(cx), gens::ALL_STATES[cx.draw(13) as usize]),
+        1 => Message::AckOperation(gens::address(cx), gens::ALL_OPS[cx.draw(6) as usize]),
+        _ => Message::SendData(Offset(16 * cx.draw(4) as u16), gens::data(gens::payload(cx, 16))),
     }
 }
 
@@ -578,7 +595,7 @@ impl Scenario for C18 {
                 }
             } else {
                 match cx.draw(4) {
-                    0 => Message::SendData(Offset(*cx.pick(&[0u16, 16, 32])), gens::data(cx.bytes(gens::chunk_len(cx)))),
+                    0 => Message::SendData(Offset(*cx.pick(&[0u16, 16, 32])), gens::data(gens::payload(cx, gens::chunk_len(cx)))),
                     1 => Message::QueryState(gens::address(cx)),
                     _ => any_message(cx),
                 }
@@ -590,6 +607,14 @@ impl Scenario for C18 {
                     2 => Message::AckOperation(gens::address(cx), gens::ALL_OPS[cx.draw(6) as usize]),
                     _ => Message::Unknown(gens::unknown_frame(cx)),
                 };
+                if !long_poll && cx.chance(1, 12) {
+                    // line noise in front of the reply: one garbled, newline-terminated line
+                    cx.probe("noise_line_before_the_reply");
+                    let n = 1 + cx.draw(6) as usize;
+                    let mut g: Vec<u8> = cx.bytes(n).into_iter().map(|b| if b == b'\n' { b'?' } else { b }).collect();
+                    g.extend_from_slice(b"\r\n");
+                    incoming.extend(g);
+                }
                 incoming.extend(Frame::from(r.clone()).to_bytes_with_newline());
                 replies.push(Some(r));
             } else {
@@ -668,7 +693,15 @@ impl Scenario for C18 {
                 let w = shared.lock();
                 w.ops[o0..].iter().filter_map(|o| if let PortOp::Read { bytes, .. } = o { Some(bytes.clone()) } else { None }).flatten().collect()
             };
-            let received = Frame::from_bytes(&read_bytes).ok().map(|f| to_static(&Message::from(f)));
+            // what the bus last received: the last complete line among the bytes it took in this exchange
+            let last_line: &[u8] = {
+                let body = read_bytes.strip_suffix(b"\n").unwrap_or(&read_bytes);
+                match body.iter().rposition(|b| *b == b'\n') {
+                    Some(k) => &read_bytes[k + 1..],
+                    None => &read_bytes[..],
+                }
+            };
+            let received = Frame::from_bytes(last_line).ok().map(|f| to_static(&Message::from(f)));
             if received != replies[i] {
                 // the bus did not read exactly the scripted reply: no verdict on this run
                 cx.discard("reply-not-read-as-scripted");
